@@ -62,6 +62,7 @@ def run(ck: Check, repo: Repo) -> None:
     ck.rule("C20.9", "one way into the buffer, one way out: training loops store transitions through the dtype-normalising Transition class and every "
                      "learn() passes observations through preprocess_observation before a network call")
     _consumers(ck, repo)
+    _sampled_keys(ck, repo)
     _protocol_isinstance(ck, repo)
     _accounting(ck, repo)
     _fitness(ck, repo)
@@ -205,6 +206,76 @@ def _consumers(ck: Check, repo: Repo) -> None:
 
 
 # ------------------------------------------------------------------------------------------------ C20.3
+def _truth_under(e: Optional[ast.AST], guards) -> Optional[bool]:
+    """Truth value of e where the guards (test, polarity) are known; None when it cannot be told."""
+    if e is None:
+        return None
+    if isinstance(e, ast.Constant):
+        return bool(e.value)
+    txt = ast.unparse(e)
+    for g, pol, _ in guards:
+        if ast.unparse(g) == txt:
+            return pol
+    if isinstance(e, ast.UnaryOp) and isinstance(e.op, ast.Not):
+        t = _truth_under(e.operand, guards)
+        return None if t is None else not t
+    if isinstance(e, ast.IfExp):
+        t = _truth_under(e.test, guards)
+        return None if t is None else _truth_under(e.body if t else e.orelse, guards)
+    if isinstance(e, ast.BoolOp):
+        ts = [_truth_under(v, guards) for v in e.values]
+        if isinstance(e.op, ast.And):
+            return False if False in ts else (True if all(t is True for t in ts) else None)
+        return True if True in ts else (False if all(t is False for t in ts) else None)
+    if isinstance(e, ast.Call) and call_name(e) == "bool" and len(e.args) == 1:
+        return _truth_under(e.args[0], guards)
+    return None
+
+
+def _sampled_keys(ck: Check, repo: Repo) -> None:
+    """The sampled indices are only in a batch when they were asked for: ReplayBuffer.sample adds "idxs" under `return_idx`, the
+    prioritised buffer always.  Every read batch["idxs"] inside a training loop gets its batch from a sample call that requests them
+    on the path of the read (the two copies of the learn block in train_off_policy must agree on this)."""
+    std = repo.fn("agilerl.components.replay_buffer", "ReplayBuffer.sample")
+    scfg = CFG(std.node)
+    puts = [n for n in scfg.live_nodes() if n.kind == "stmt" and isinstance(n.ast, ast.Assign) and isinstance(n.ast.targets[0], ast.Subscript)
+            and const_value(n.ast.targets[0].slice) == "idxs"]
+    cond = len(puts) == 1 and [ast.unparse(g) for g, pol, _ in scfg.guards_at(puts[0]) if pol] == ["return_idx"]
+    ck.floor("C20.1", 1 if cond else 0, 1, "`idxs` entry added exactly when return_idx is set (the premise of the rule on the training loops)", fn=std)
+    per = repo.fn("agilerl.components.replay_buffer", "PrioritizedReplayBuffer.sample")
+    pcfg = CFG(per.node)
+    pput = [n for n in pcfg.live_nodes() if n.kind == "stmt" and isinstance(n.ast, ast.Assign) and isinstance(n.ast.targets[0], ast.Subscript)
+            and const_value(n.ast.targets[0].slice) == "idxs" and not pcfg.guards_at(n)]
+    ck.floor("C20.1", len(pput), 1, "unconditional `idxs` entry", fn=per)
+    nreads = 0
+    for fname, modname in LOOPS.items():
+        fn = repo.fn(modname, fname)
+        cfg = None
+        for sub in walk_no_nested(fn.node):
+            if not (isinstance(sub, ast.Subscript) and isinstance(sub.ctx, ast.Load) and const_value(sub.slice) == "idxs" and isinstance(sub.value, ast.Name)):
+                continue
+            cfg = cfg or CFG(fn.node)
+            at = cfg.node_of(sub)
+            if at is None:
+                continue
+            nreads += 1
+            guards = cfg.guards_at(at)
+            bad = None
+            for d in cfg.defs_reaching(at, sub.value.id):
+                v = cfg.value_of_def(d, sub.value.id)
+                if not (isinstance(v, ast.Call) and last_attr(v) == "sample"):
+                    bad = f"the batch comes from `{short(v, 60) if v is not None else d.kind}`"
+                    continue
+                kw = get_kw(v, "return_idx", None)
+                if kw is None and len(v.args) >= 2 and any(ast.unparse(g) == "per" and pol for g, pol, _ in cfg.guards_at(d)):
+                    continue  # sample(batch_size, beta): the prioritised buffer, on the `per` path
+                if _truth_under(kw, guards) is not True:
+                    bad = f"`{short(v, 80)}` does not request the indices on this path"
+            ck.ob("C20.1", fn, sub, bad is None, f"{fname}: a batch whose sampled indices are read was sampled with the indices requested", detail=bad or "",
+                  construct=f"{fname}: read of batch['idxs'] / the sample call that produced the batch")
+    ck.floor("C20.1", nreads, 4, "reads of the sampled indices inside the training loops")
+
+
 def _protocol_isinstance(ck: Check, repo: Repo) -> None:
     pm = repo.mod("agilerl.protocols")
     protos: Dict[str, Set[str]] = {}
@@ -496,6 +567,9 @@ _TO = "agilerl/training/train_off_policy.py"
 _TON = "agilerl/training/train_on_policy.py"
 _TMA = "agilerl/training/train_multi_agent_off_policy.py"
 VARIANTS = [
+    ("off-policy-second-learn-block-no-indices", _TO, "                        else:\n                            experiences = sampler.sample(\n                                agent.batch_size,\n                                return_idx=True if n_step_memory is not None else False,\n                            )\n                            if n_step_memory is not None:\n                                n_step_experiences = n_step_sampler.sample(\n                                    experiences[\"idxs\"]\n                                )\n                                loss, *_ = agent.learn(\n                                    experiences, n_experiences=n_step_experiences\n                                )\n                            else:\n                                loss = agent.learn(experiences)\n                                if isinstance(agent, RainbowDQN):\n                                    loss, *_ = loss\n\n                if loss is not None:",
+     "                        else:\n                            experiences = sampler.sample(agent.batch_size)\n                            if n_step_memory is not None:\n                                n_step_experiences = n_step_sampler.sample(\n                                    experiences[\"idxs\"]\n                                )\n                                loss, *_ = agent.learn(\n                                    experiences, n_experiences=n_step_experiences\n                                )\n                            else:\n                                loss = agent.learn(experiences)\n                                if isinstance(agent, RainbowDQN):\n                                    loss, *_ = loss\n\n                if loss is not None:", "fire", "C20.1"),
+
     ("off-steps-only-vectorised", _TO, "                total_steps += num_envs\n                steps += num_envs\n", "                total_steps += num_envs\n                if is_vectorised:\n                    steps += num_envs\n", "fire", "C20.4"),
     ("off-steps-plus-one", _TO, "                total_steps += num_envs\n                steps += num_envs\n", "                total_steps += num_envs\n                steps += 1\n", "fire", "C20.4"),
     ("off-agent-steps-twice", _TO, "            agent.steps[-1] += steps\n", "            agent.steps[-1] += steps\n            agent.steps[-1] += steps\n", "fire", "C20.4"),
@@ -506,7 +580,7 @@ VARIANTS = [
     ("off-evaluate-half", _TO, "            for agent in pop\n        ]\n        pop_fitnesses.append(fitnesses)", "            for agent in pop[::2]\n        ]\n        pop_fitnesses.append(fitnesses)", "fire", "C20.5"),
     ("dqn-fitness-twice", "agilerl/algorithms/dqn.py", "        self.fitness.append(mean_fit)\n        return mean_fit", "        self.fitness.append(mean_fit)\n        self.fitness.append(mean_fit)\n        return mean_fit", "fire", "C20.5"),
     ("ddpg-fitness-in-loop", "agilerl/algorithms/ddpg.py", "        mean_fit = np.mean(rewards)\n        self.fitness.append(mean_fit)\n        return mean_fit", "        mean_fit = np.mean(rewards)\n        if len(rewards) > 1:\n            self.fitness.append(mean_fit)\n        return mean_fit", "fire", "C20.5"),
-    ("ma-return-fitness-only", _TMA, "    return pop, pop_fitnesses\n", "    return pop_fitnesses, pop\n", "fire", "C20.6"),
+    ("ma-return-fitness-only", _TMA, "    pbar.close()\n    return pop, pop_fitnesses\n", "    pbar.close()\n    return pop_fitnesses, pop\n", "fire", "C20.6"),
     ("dqn-learn-tuple-unpack", "agilerl/algorithms/dqn.py", "        obs = experiences[\"obs\"]\n        actions = experiences[\"action\"]\n        rewards = experiences[\"reward\"]\n        next_obs = experiences[\"next_obs\"]\n        dones = experiences[\"done\"]\n\n        obs = self.preprocess_observation(obs)\n        next_obs = self.preprocess_observation(next_obs)\n\n        loss = self.update(",
      "        obs, actions, rewards, next_obs, dones = experiences\n\n        obs = self.preprocess_observation(obs)\n        next_obs = self.preprocess_observation(next_obs)\n\n        loss = self.update(", "fire", "C20.1"),
 ]
